@@ -199,6 +199,8 @@ def run_property(prop_id, spec, tier, seed=0, only_unit=None, keep=False, verbos
               wall_s=0.0, violations=0)
     known = load_known()
     native = Native(scratch)
+    for old in glob.glob(os.path.join(VERIF, 'replay', prop_id + '-*.json')):
+        os.remove(old)
     try:
         units = [u for u in spec['units'] if tier in u.get('tiers', ('quick', 'thorough'))]
         if only_unit:
